@@ -5,6 +5,7 @@
    interleaving of API calls made outside handlers, run() and restart()). *)
 From Coq Require Import List ZArith Lia Bool.
 From Sim Require Import Map Variant Current Kernel KScript KernelFrames KernelInv KernelTrace KernelFifo KernelTimers.
+From Sim Require Import Net SimState Script CompositeProofs.
 Import ListNotations.
 Local Open Scope Z_scope.
 
@@ -144,3 +145,13 @@ Example C02_stop_script_trace :
   visible (run_kscript current 100 100 stop_script) =
   [VR 0 0 0; VH 0 1 None; VH 0 3 None; VX 1000 3; VH 1000 2 (Some Success); VX 1000 1; VX 1000 0].
 Proof. vm_compute. reflexivity. Qed.
+
+(* ---- the same in the composite model (kernel + sockets + queues + NAT + resolver +
+   test servers) as driven by a script: the executions the correspondence check
+   compares with the library (Proofs/CompositeProofs.v) ---- *)
+Theorem C02_in_the_composite_model_virtual_time_never_runs_backwards :
+  forall fuel pfuel (p : script),
+    let s := run_script current fuel pfuel p in
+    mono task logev (now _ _ _ s) (trace _ _ _ s).
+Proof. intros. exact (composite_MInv current fuel pfuel p eq_refl). Qed.
+Print Assumptions C02_in_the_composite_model_virtual_time_never_runs_backwards.
